@@ -298,9 +298,13 @@ class StmtMixin:
         tv = self.tag(v, "unpack")
         if tv != "ref":
             self.raise_("TypeError", self.anchor(node, "unpack"))
-        cid = self.class_of(v, "unpack-class")
-        if self.is_host_class(cid) or self.table.names.get(cid) in ("dict", "OrderedDict", "set", "frozenset", "bytes"):
-            if self.is_host_class(cid):
+        try:
+            cid = self.class_of(v, "unpack-class")
+        except Unsupported:
+            cid = None          # a value of unknown class: some iterable
+        if cid is None or self.is_host_class(cid) or \
+                self.table.names.get(cid) in ("dict", "OrderedDict", "set", "frozenset", "bytes", "deque"):
+            if cid is None or self.is_host_class(cid):
                 self.host_op("iter", v, node, extra="unpack")
             # a host iterable: iterating runs host code (may raise); it yields exactly n items or the unpack fails
             if not self.ctx.branch(z3.Bool("host_unpack_ok!%d" % self.ctx.pos), "host iterable has %d items" % n):
@@ -462,9 +466,10 @@ class StmtMixin:
         # loops may also be named by what they iterate over (robust against loops added before them)
         alt = ("iter:" + ast.unparse(node.iter)) if isinstance(node, ast.For) else ("while:" + ast.unparse(node.test))
         for k in (lab, alt):
-            sp = self.top.loop_specs.get((key, k)) or (self.top.loop_specs.get(k) if key == self.top.key else None)
-            if sp is not None:
-                return sp
+            kk = (key, k) if (key, k) in self.top.loop_specs else (k if (key == self.top.key and k in self.top.loop_specs) else None)
+            if kk is not None:
+                self.matched_loop_specs.add(kk)
+                return self.top.loop_specs[kk]
         return None
 
     def havoc_loop(self, body, extra_modifies=None):
@@ -704,6 +709,17 @@ class StmtMixin:
                               interp.host_or_builtin_class(z3.Select(interp.st.typeof, Val.r(k))))))
             if hostdata:
                 interp.assume_shape(z3.Select(val, k), ANY_SORT)
+            dvs_ = interp.st.ghost.get("dict_value_sorts", {})
+            vs_ = dvs_.get(str(z3.simplify(VRef(r)))) or dvs_.get("r:" + str(z3.simplify(r)))
+            if vs_ is not None and getattr(vs_, "kind", None) == "obj":
+                # declared typing of the dictionary's values applies to the values met while iterating over it
+                t_ = interp.table
+                names_ = list(vs_.subclasses) if vs_.subclasses else [vs_.cls]
+                ids_ = [t_.ids[n_] if n_ in t_.ids else interp.index.find_class(n_).cid for n_ in names_]
+                vv_ = z3.Select(val, k)
+                shape_ = z3.And(Val.is_VRef(vv_), Val.r(vv_) > 0, Val.r(vv_) < interp.st.next_id,
+                                z3.Or(*[z3.Select(interp.st.typeof, Val.r(vv_)) == i_ for i_ in ids_]))
+                interp.ctx.assume(z3.Implies(z3.And(i >= 0, i < n), z3.Or(Val.is_VNone(vv_), shape_) if vs_.nullable else shape_))
             if what == "keys":
                 return k
             if what == "values":
